@@ -22,7 +22,7 @@ from typing import Any, Dict, List, Tuple
 from ..util import make_cfg, pmap
 
 MANIFEST = {
-    "technique": "TLA+ turn-pipeline spec (Turn.tla) restricted to the reflection dimensions, model-checked exhaustively with TLC over 2-turn histories incl. reused context objects and faults; every history replayed on the real run_turn comparing record sequence, memory writes and version with the spec, plus differential runs (reflection on vs off) for artefact isolation",
+    "technique": "TLA+ turn-pipeline spec (Turn.tla) restricted to the reflection dimensions, model-checked exhaustively with TLC over 2-turn histories incl. reused context objects and faults; every history replayed on the real run_turn comparing record sequence, memory writes and version with the spec, plus differential runs (reflection on vs off) for artefact isolation; the write path below the turn as its own enumerate-inputs spec (ReflWrite.tla: entries x ops cap x per-slot add faults) replayed on write_reflection_entries",
     "text": "Exhaustive model checking of the reflection gate/budget rules inside the turn state machine (runs iff allowed AND requested AND not dry-run; nothing computed/written/logged otherwise; at most ops-cap entries; nothing written on error/timeout), bound to the code by replaying every explored 2-turn history on the real orchestrator with injected planner flag, scripted clock, recording memory index and fault injection at compute/write/log, and by differential comparison of canonical records and utterance against the same history with reflection off.",
     "note": "Histories of 2 turns; rule-based backend for the full matrix, LLM-fixture backend for present/missing/empty fixture; token limits {0,1,3,128}; only Exception subclasses are injected.",
 }
